@@ -240,6 +240,37 @@ def outcome_of(fn):
         return "raisevalue", str(ex)
 
 
+def pure_outcome(fn, *args):
+    """Queries are pure (stuttering steps of the specification): call fn(*args) TWICE with the SAME argument objects.
+    ndarray arguments (float64 distances / angles / losses, integer wall counts) must be bit-identical after each
+    call, the result must not share memory with an argument, and the second result must equal the first.
+    Returns outcome_of's (kind, value) of the first call, or ('impure', description)."""
+    snaps = [a.copy() if isinstance(a, np.ndarray) else None for a in args]
+
+    def touched(when):
+        for i, (a, b) in enumerate(zip(args, snaps)):
+            if b is not None and not (a.dtype == b.dtype and a.shape == b.shape and np.array_equal(a, b, equal_nan=True)):
+                return (f"query is not pure: argument {i} (caller's {b.dtype} array) was modified by the {when} call: "
+                        f"before {b.ravel()[:4].tolist()}.., after {a.ravel()[:4].tolist()}..")
+        return None
+    k1, x1 = outcome_of(lambda: fn(*args))
+    t = touched("first")
+    if t:
+        return "impure", t
+    if k1 == "val" and isinstance(x1, np.ndarray) and any(b is not None and np.shares_memory(x1, a) for a, b in zip(args, snaps)):
+        return "impure", "query is not pure: the returned array shares memory with the caller's argument"
+    keep = x1.copy() if isinstance(x1, np.ndarray) else x1
+    k2, x2 = outcome_of(lambda: fn(*args))
+    t = touched("second")
+    if t:
+        return "impure", t
+    if k1 != k2 or (k1 == "val" and not np.array_equal(np.asarray(keep), np.asarray(x2), equal_nan=True)):
+        return "impure", (f"query is not repeatable: the same call with the same arguments returned "
+                          f"{np.asarray(keep).ravel()[:4].tolist() if k1 == 'val' else k1}.. and then "
+                          f"{np.asarray(x2).ravel()[:4].tolist() if k2 == 'val' else k2}..")
+    return k1, keep
+
+
 def check_elem(x, exp, model, lin=False):
     """one returned number against one emitted outcome record; None if fine"""
     if exp["t"] == "zero":
@@ -262,8 +293,10 @@ def run_query(model, o, q):
     if op == "PLdBArr":
         d = np.array([dist(k) for k in q["ks"]])
         w = np.array(q["ws"]) if model == "metis" else None
-        kind, x = outcome_of(lambda: call_dB(model, o, d, w))
+        kind, x = pure_outcome(lambda dd, ww: call_dB(model, o, dd, ww), d, w)
         exp = q["exp"]
+        if kind == "impure":
+            return x
         if exp["t"] == "raise":
             return None if kind == "raise" else f"array query returned {x!r}, expected RuntimeError (policy: raise)"
         if kind != "val":
@@ -292,6 +325,15 @@ def run_query(model, o, q):
             friis = 20.0 * math.log10(4.0 * math.pi * (d * 1e3) * (o.fc * 1e6) / C_LIGHT)
             if not abs(float(x) - friis) <= fval(exp["tol"]):
                 return f"free space n=2 gives {x!r} dB, Friis 20log10(4 pi d f/c) = {friis!r} (more than 0.01 dB apart)"
+        if r is None:
+            # the same query with the caller's one-element float64 array (unchanged afterwards, repeatable, same value)
+            da = np.array([d])
+            wa = np.array([w]) if model == "metis" else None
+            ka, xa = pure_outcome(lambda dd, ww: (call_lin if lin else call_dB)(model, o, dd, ww), da, wa)
+            if ka == "impure":
+                return xa
+            if ka != "val" or not isinstance(xa, np.ndarray) or xa.shape != (1,) or not close(xa[0], float(x), rel=lin):
+                return f"one-element array query gives {xa!r} ({ka}), the scalar query {x!r}"
         return r
     if op == "WhichDistDB":
         if exp["t"] == "notoffered":
@@ -315,7 +357,7 @@ def run_query(model, o, q):
 def rel_predicates(model, o, walls=(0,), kmin=-4, kmax=3, per_decade=4, inverse=True):
     """the laws of the property as relations, evaluated numerically on a distance grid (rel).
     Returns {predicate: None | description}."""
-    res = {"Monotone": None, "LinearIsDb": None, "InUnit": None, "PolicyArrayScalar": None, "InverseId": None}
+    res = {"Monotone": None, "LinearIsDb": None, "InUnit": None, "PolicyArrayScalar": None, "InverseId": None, "QueryPure": None}
     grid = np.array([10.0 ** (kmin + i / per_decade) for i in range((kmax - kmin) * per_decade + 1)])
     pol = o.handle_small_distances_bool is True
     for w in walls:
@@ -354,7 +396,10 @@ def rel_predicates(model, o, walls=(0,), kmin=-4, kmax=3, per_decade=4, inverse=
             elif kind != "val" and seen_val:
                 res["Monotone"] = "a distance beyond an admissible one is rejected"
         wa = np.full(grid.shape, w) if model == "metis" else None
-        kind, xa = outcome_of(lambda: call_dB(model, o, grid.copy(), wa))
+        kind, xa = pure_outcome(lambda dd, ww: call_dB(model, o, dd, ww), grid, wa)
+        if kind == "impure":
+            res["QueryPure"] = xa
+            continue
         any_raise = any(k != "val" for k, _ in scal)
         if any_raise != (kind != "val"):
             res["PolicyArrayScalar"] = (f"array query {'raised' if kind != 'val' else 'returned values'} while scalar queries "
@@ -364,7 +409,19 @@ def rel_predicates(model, o, walls=(0,), kmin=-4, kmax=3, per_decade=4, inverse=
                 if not close(y, x):
                     res["PolicyArrayScalar"] = f"array element {y!r} differs from the scalar query {x!r}"
                     break
-            kl, la = outcome_of(lambda: call_lin(model, o, grid.copy(), wa))
+            kl, la = pure_outcome(lambda dd, ww: call_lin(model, o, dd, ww), grid, wa)
+            if kl == "impure":
+                res["QueryPure"] = la
+                continue
+            if inverse:
+                good = np.asarray(xa) > 1e-6
+                for nm, f, arg in (("which_distance", o.which_distance, np.array(la)), ("which_distance_dB", o.which_distance_dB, np.array(xa))):
+                    kz, z = pure_outcome(f, arg)
+                    if kz == "impure":
+                        res["QueryPure"] = f"{nm}: {z}"
+                    elif kz != "val" or not isinstance(z, np.ndarray) or z.shape != grid.shape or \
+                            not np.allclose(z[good], grid[good], rtol=1e-9, atol=0):
+                        res["InverseId"] = f"array {nm} is not the inverse of the array loss query"
             if kl != "val" or not np.allclose(la, 10.0 ** (-np.asarray(xa) / 10.0), rtol=1e-9, atol=0):
                 res["LinearIsDb"] = "array calc_path_loss differs from 10^(-dB/10)"
             elif not np.all((la > 0) & (la <= 1)):
@@ -533,10 +590,15 @@ def run_antenna(ctx, r):
         cases.sort(key=lambda c: c["theta"])
         o = A.AntGainBS3GPP25996(s)
         th = np.array([float(c["theta"]) for c in cases])
-        arr = o.get_antenna_gain(th)
+        kind, arr = pure_outcome(o.get_antenna_gain, th)
+        kneg, arrneg = pure_outcome(o.get_antenna_gain, -th)
+        if kind != "val" or kneg != "val":
+            ctx.violation(f"sector antenna ({s} sectors), float64 array of {len(th)} angles: {arr if kind != 'val' else arrneg}",
+                          {"antenna": cases[0], "how": "array"})
+            continue
         for i, c in enumerate(cases):
             want = 10.0 ** (fval(c["gain_dB"]) / 10.0)
-            for how, x in (("scalar", o.get_antenna_gain(float(c["theta"]))), ("int", o.get_antenna_gain(int(c["theta"]))), ("array", arr[i])):
+            for how, x in (("scalar", o.get_antenna_gain(float(c["theta"]))), ("int", o.get_antenna_gain(int(c["theta"]))), ("array", arr[i]), ("array of negated angles", arrneg[i])):
                 if close(x, want, rel=True):
                     ctx.ok(("ant", s, c["theta"], how))
                 else:
@@ -547,7 +609,11 @@ def run_antenna(ctx, r):
         o = A.AntGainOmni() if g is None else A.AntGainOmni(g)
         want = 10.0 ** (fval(c["gain_dB"]) / 10.0)
         th = np.array([float(t) for t in c["thetas"]])
-        xs = [o.get_antenna_gain(float(t)) for t in c["thetas"]] + list(np.asarray(o.get_antenna_gain(th)).ravel())
+        kind, ga = pure_outcome(o.get_antenna_gain, th)
+        if kind != "val":
+            ctx.violation(f"omni antenna gain {g} dBi, float64 array of angles: {ga}", {"antenna": c})
+            continue
+        xs = [o.get_antenna_gain(float(t)) for t in c["thetas"]] + list(np.asarray(ga).ravel())
         if len(xs) == 2 * len(th) and all(close(x, want, rel=True) for x in xs):
             ctx.ok(("ant", "omni", str(g)))
         else:
